@@ -309,6 +309,9 @@ let cmd_loop (_param : string) (arg : string) (_impl : string) : string * string
             if d05 && not d15 then fails := "C05:installations-or-selected-uids-differ" :: !fails;
             if d09 then fails := "C09:command-destination-or-flow-id-differs" :: !fails;
             if d11 && not d05 && not d09 then fails := "C11:command-result-or-message-differs" :: !fails;
+            (* the same commands succeeded and failed, but a message's bytes are not what its updates say *)
+            (let pcmd it = match toks it with "CMD" :: _ -> Some it | _ -> None in
+             if d11 && not d05 && not d09 && not (differs pcmd) then fails := "C06:control-message-bytes-differ-from-the-requested-updates" :: !fails);
             if d12 && not d11 && not d05 then fails := "C12:field-lookup-result-differs" :: !fails
           end
         end;
